@@ -10,6 +10,7 @@ import real
 import wire
 import model
 from sweep import sweep, doc_depth
+import sweep as sweep_mod
 
 BASE_ENV = dict(real.DEFAULT_ENVDESC)
 PROBE_ENV = dict(real.DEFAULT_ENVDESC)
@@ -204,6 +205,18 @@ def explore_c02(rng, tier, res, deep=False):
         ("$[?@.*]", [[], [0], {}, {"a": None}, 0]),
     ]
     cases.extend(fixed)
+    # long arrays and objects (60..130 children) over a small pool of values that Python's == / hash() conflate but
+    # RFC 9535 keeps apart (1, true, 1.0; 0, false, 0.0, -0.0) or that repeat many times: whatever an implementation
+    # remembers per distinct child value, per position or per container size shows up here and not on short inputs
+    pool = [0, 1, True, False, 1.0, 0.0, -0.0, "1", "", None, 2, "a", [], [1], {}, {"a": 1}, {"a": True}]
+    for _ in range(40 if tier != "thorough" else 400):
+        n = rng.choice([60, 63, 64, 65, 100, 128, 130])
+        xs = [rng.choice(pool) for _ in range(n)]
+        doc = rng.choice([xs, {"log": xs, "ok": rng.choice(pool[:7])}, {"k%d" % i: x for i, x in enumerate(xs)}])
+        lit = rng.choice(["1", "0", "true", "false", "1.0", "0.0", "null", "'1'", "2"])
+        q = rng.choice([f"$[?@ == {lit}]", f"$[?@ != {lit}]", f"$[?{lit} == @]", f"$[?@ < {lit}]", f"$[?@ >= {lit}]", "$.log[?@ == $.ok]", "$.log[?@ != $.ok]",
+                        f"$..[?@ == {lit}]", f"$[?@.a == {lit}]", "$[?@]", f"$[?@ == {lit} || @ == 'a']", "$[?" + g.logical_or(1) + "]"])
+        cases.append((q, doc))
     sweep(res, PROBE_ENV, cases, "C02", expect_valid=True)
     reuse_after_edit(rng, res, PROBE_ENV, cases[:: max(1, len(cases) // (300 if tier == "quick" and not deep else 3000))], "C02")
 
@@ -510,7 +523,58 @@ def explore_c10(rng, tier, res, deep=False):
         rng.shuffle(cases)
         cases = cases[: (3000 if deep else 1200)]
     sweep(res, PROBE_ENV, cases, "C10", expect_valid=True)
+    cross_env_stage(rng, res, cases[:: max(1, len(cases) // (400 if tier != "thorough" else 4000))])
     callargs_check(rng, tier, res, docs, exprs + tests)
+
+
+def cross_env_stage(rng, res, cases):
+    """The quantifier's "configurations" axis: several environments alive at once that give the same function NAMES
+    other bodies and other signatures (a built-in overridden in one of them, a default environment constructed in
+    between).  Each environment must keep evaluating calls with ITS OWN registry: every query goes through each
+    environment in turn and is judged by the oracle for that environment's description."""
+    descA = dict(PROBE_ENV)
+    swap = {"pick0": "const", "const": "pick0"}
+    fnsB = []
+    for n, ats, ret, body in gen.PROBE_FNS:
+        if n == "length":
+            fnsB.append((n, ats, ret, "const"))          # a built-in overridden: always 7
+        elif n == "vvl":
+            fnsB.append((n, ["N"], "L", "const"))        # another signature under the same name
+        elif n in ("count", "value"):
+            fnsB.append((n, ats, ret, body))
+        else:
+            b2 = swap.get(body, body)
+            if b2 == "pick0" and (not ats or ats[0] != ret):
+                b2 = "const"
+            fnsB.append((n, ats, ret, b2))
+    descB = dict(PROBE_ENV, fns=fnsB)
+    envA = real.make_env(descA)
+    envB = real.make_env(descB)
+    real.make_env(dict(real.DEFAULT_ENVDESC))  # constructing one more environment must not reset the others
+    lines, recs = [], []
+    for q, doc in cases:
+        for env, desc in ((envA, descA), (envB, descB), (envA, descA)):
+            try:
+                rl, _c = sweep_mod.observe_query(env, q, doc)
+            except RecursionError:
+                continue
+            recs.append((q, doc, desc, rl))
+            lines.append(f"rfc.query\t{real.enc_env(desc)}\t{wire.enc_str(q)}\t{wire.enc_json(doc)}")
+    for (q, doc, desc, rl), rep in zip(recs, model.run_batch_parallel(lines)):
+        res.evaluations += 1
+        verdict = rep.split("\t")[0]
+        if verdict == "valid":
+            want = rep.split("\t", 1)[1] if "\t" in rep else ""
+            got = rl.split("\t")[1] if rl.startswith("stream\t") and rl.endswith("\tend") else rl
+            if got != want:
+                res.violations.append({"property": "C10", "query": q, "document": doc, "env": desc, "observed": got[:300], "expected": want[:300],
+                                       "history": "three environments alive: this one, one giving the same function names other bodies/signatures, and a default one constructed last",
+                                       "what": "a call was not evaluated with the registry of the environment the query was compiled and applied in"})
+        elif verdict == "invalid" and not rl.startswith("err JSONPath"):
+            res.violations.append({"property": "C10", "query": q, "document": doc, "env": desc, "observed": rl[:300], "expected": "JSONPathError",
+                                   "history": "three environments alive with different signatures under the same names",
+                                   "what": "a call ill-typed for this environment's registry was accepted"})
+    res.count("cross-environment-cases", len(lines))
 
 
 def callargs_check(rng, tier, res, docs, exprs):
